@@ -32,25 +32,33 @@ PROPS = ["MxlVerif.Props.C11"]
 
 
 def entries(content):
-    """(key, function identity, args) in the order the generator fills its `functions` dict"""
+    """(key, function identity, args) in the order the generator fills its `functions` dict.
+    Generated keys (init_<f>, <rxn>_stoich_<f>) are extended with "_" until no derived / reaction function
+    has that name."""
     out = []
+    taken = {f["name"] for _, f in content["derived"]} | {r["name"] for _, r in content["rxns"]}
 
     def ident(f):
         return (f["name"], json.dumps(f["e"]), len(f["args"]))
 
+    def free(name):
+        while name in taken:
+            name += "_"
+        return name
+
     for k, v in content["vars"]:
         if "ia" in v:
-            out.append((f"init_{v['ia']['name']}", ident(v["ia"]), list(v["ia"]["args"])))
+            out.append((free(f"init_{v['ia']['name']}"), ident(v["ia"]), list(v["ia"]["args"])))
     for k, v in content["pars"]:
         if "ia" in v:
-            out.append((f"init_{v['ia']['name']}", ident(v["ia"]), list(v["ia"]["args"])))
+            out.append((free(f"init_{v['ia']['name']}"), ident(v["ia"]), list(v["ia"]["args"])))
     for k, f in content["derived"]:
         out.append((f["name"], ident(f), list(f["args"])))
     for k, r in content["rxns"]:
         out.append((r["name"], ident(r), list(r["args"])))
         for cpd, cj in r["st"]:
             if "c" not in cj:
-                out.append((f"{k}_stoich_{cj['name']}", ident(cj), list(cj["args"])))
+                out.append((free(f"{k}_stoich_{cj['name']}"), ident(cj), list(cj["args"])))
     return out
 
 
